@@ -15,7 +15,7 @@ REQUIRED_THEOREMS = ['Usid.C15.budget', 'Usid.C15.monotone', 'Usid.C15.cores_bou
                      'Usid.C15.recommend_le_request', 'Usid.C15.recommend_total',
                      'Usid.C15.recommend_zero_request_raises', 'Usid.C15.recommend_zero_jobs_raises',
                      'Usid.C15.zero_budget_errors', 'Usid.C15.terminates_all_done', 'Usid.C15.admits_one_row']
-RULE = ('[also: min_free_cores (valid, boundary and invalid values); the batch size must be >= 1 whenever the budget admits a row] simulated machines (psutil/multiprocessing patched in the harness): sizing cases (logical cores, available '
+RULE = ('[also: budgets that admit 2^32 rows and more] [also: min_free_cores (valid, boundary and invalid values); the batch size must be >= 1 whenever the budget admits a row] simulated machines (psutil/multiprocessing patched in the harness): sizing cases (logical cores, available '
         'bytes, max_mem_mb, dyadic multiplier k/8, cores argument, row bytes) each paired with a larger budget; '
         'recommender grid cases; real compute() runs under a SIGALRM watchdog for zero/one/few-row budgets; '
         'non-trivial = budget binds (maxpos < N) or request clipped or zero-row budget')
@@ -56,6 +56,14 @@ def generate(seed, tier):
             rows = rng.choice([0, 0, 1, 1, 2, n, n + 3])          # rows the budget admits
             cases.append({'kind': 'run', 'logical': logical, 'n': n, 'm': m, 'rows': rows,
                           'cores': rng.choice([None, 1, 2])})
+    # budgets that admit 2^32 rows and more (tiny rows, tens of GB): nothing may be counted in 32 bits
+    for j in range({'quick': 4, 'thorough': 24, 'search': 12}[tier]):
+        rng = derived_rng(seed, 'C15big', j)
+        k = rng.choice([1, 2, 3, 5])
+        avail = k * 2 ** 34 + rng.choice([0, 0, 4, 2 ** 20])
+        cases.append({'kind': 'sizing', 'logical': rng.choice([1, 2, 4]), 'avail': avail, 'mb': None, 'mult8': 8,
+                      'cores': 1, 'n': rng.randint(1, 4), 'm': 1, 'dtype': 'f4',
+                      'avail2': avail + rng.choice([4, 2 ** 30, 2 ** 34]), 'mb2': None})
     return cases
 
 
